@@ -497,6 +497,11 @@ where
             .choose_down_members(num_members, &mut self.choice_buf, &mut self.rng);
 
         while let Some(chosen) = self.choice_buf.pop() {
+            // Our own previous identities may be listed as down members:
+            // announcing to them would be sending a message to ourselves
+            if chosen.id().addr() == self.identity.addr() {
+                continue;
+            }
             self.send_message(chosen.into_identity(), Message::Announce, &mut runtime)?;
         }
 
